@@ -75,6 +75,8 @@ impl Distribution<f64> for StandardNormal {
             let mut y = 0.0f64;
 
             while -2.0 * y < x * x {
+                #[cfg(rand_distr_verif)]
+                crate::verif_hooks::probe(9);
                 let x_: f64 = rng.sample(Open01);
                 let y_: f64 = rng.sample(Open01);
 
